@@ -7,6 +7,9 @@
    neighbours, clipping of runs).
    Executable definitions only; proofs live in Proofs/C09.v. *)
 From Coq Require Import ZArith List Bool.
+From Coq Require String.
+Import String.StringSyntax.
+Delimit Scope string_scope with string.
 From BNP Require Import Base.Prims.
 Import ListNotations.
 Open Scope Z_scope.
@@ -221,20 +224,87 @@ Definition mk_rle (ev : list Z) (vs : list val) : option rle :=
   if wf_rle (ev, vs) then Some (ev, vs) else None.
 Definition rle_len (r : rle) : Z := last (fst r) 0.
 
+(* ====================================================================================== *)
+(* Named formulas of the anchored code.  translate/gen_c09.py regenerates each of them from   *)
+(* /repo on every run (Gen/C09.v) and Bridge/C09.v proves gen_x = m_x; the model below is     *)
+(* written in terms of these names.                                                           *)
+(* ====================================================================================== *)
+Definition vint (z : Z) : val := (z, 0).
+(* GenomicRunLengthArray.from_bedgraph *)
+Definition m_bg_empty_events (size : Z) : list Z := [0; size].
+Definition m_bg_empty_values : list Z := [0].
+Definition m_bg_is_gap (next_start prev_stop : Z) : bool := negb (next_start =? prev_stop).
+Definition m_bg_gap_pos (missing_idx : Z) : Z := missing_idx + 1.      (* the gap run goes right after record missing_idx *)
+Definition m_bg_gap_value : Z := 0.
+Definition m_bg_gap_shape : list String.string :=
+  ["bedgraph.start"; "bedgraph.stop[missing_idx]"; "bedgraph.value"; "bedgraph.start"; "bedgraph.value"]%string.
+Definition m_bg_fits (last_stop size : Z) : bool := last_stop <=? size.
+Definition m_bg_ends_at_size (size last_stop : Z) : bool := size =? last_stop.
+Definition m_bg_tail_at (size last_stop : Z) : list Z := [last_stop].
+Definition m_bg_tail_before (size last_stop : Z) : list Z := [last_stop; size].
+Definition m_bg_tail_values_before : list Z := [0].
+Definition m_bg_tail_shape : list String.string := ["start"; "value"; "start"; "value"]%string.
+Definition m_bg_needs_prefix (e0 : Z) : bool := negb (e0 =? 0).
+Definition m_bg_prefix_pos : Z := 0.
+Definition m_bg_prefix_event : Z := 0.
+Definition m_bg_prefix_value : Z := 0.
+Definition m_bg_prefix_shape : list String.string := ["events"; "values"; "cls(events, values)"]%string.
+(* GenomicRunLengthArray.from_intervals *)
+Definition m_iv_assert_nonempty (stop start : Z) : bool := stop >? start.
+Definition m_iv_assert_ordered (next_start prev_stop : Z) : bool := next_start >=? prev_stop.
+Definition m_iv_has_prefix (n_starts first_start : Z) : bool := (n_starts =? 0) || negb (first_start =? 0).
+Definition m_iv_prefix (size : Z) : list Z := [0].
+Definition m_iv_has_postfix (n_ends last_stop size : Z) : bool := (n_ends =? 0) || negb (last_stop =? size).
+Definition m_iv_postfix (size : Z) : list Z := [size].
+Definition m_iv_n_events (n_prefix n_postfix n_starts n_ends : Z) : Z := n_prefix + n_postfix + n_starts + n_ends.
+Definition m_iv_start_slot (n_prefix i : Z) : Z := n_prefix + 2 * i.
+Definition m_iv_end_slot (n_prefix i : Z) : Z := n_prefix + 1 + 2 * i.
+Definition m_iv_edge_shape : list String.string := ["events[0] = prefix[0]"; "events[-1] = postfix[0]"]%string.
+Definition m_iv_n_pairs (n_events : Z) : Z := n_events / 2 + 1.        (* values has 2 * n_pairs entries *)
+Definition m_iv_default_slot (i : Z) : Z := 2 * i.
+Definition m_iv_value_slot (i : Z) : Z := 1 + 2 * i.
+Definition m_iv_array_trailing_default (last_stop size : Z) : bool := negb (last_stop =? size).
+Definition m_iv_array_shape : list String.string := ["values.shape"; "default_value"; "values"; "values"; "default_value"]%string.
+Definition m_iv_drop_first (n_starts first_start : Z) : bool := (n_starts >? 0) && (first_start =? 0).
+Definition m_iv_drop_count : Z := 1.
+Definition m_iv_keep (n_events : Z) : Z := n_events - 1.
+Definition m_iv_return_shape : list String.string := ["cls(*cls.remove_empty_intervals(events, values))"]%string.
+(* GenomicRunLengthArray.to_array *)
+Definition m_xor (prev next : Z) : Z := Z.lxor prev next.
+Definition m_ta_shape : list String.string :=
+  ["np.zeros_like(values, shape=len(self))"; "self._starts[1:] <- diffs"; "self._starts[0] <- values[0]";
+   "op.accumulate(array, out=array)"; "array.view(self._values.dtype)"]%string.
+(* genomic_track.py: slice of one chromosome out of the genome-wide array (to_dict, extract_chromsome, get_data) *)
+Definition m_slice_lo (offset size : Z) : Z := offset.
+Definition m_slice_hi (offset size : Z) : Z := offset + size.
+Definition m_td_shape : list String.string :=
+  ["zip(names, offsets, sizes) -> (name, offset, size)"; "go.get_offset(names)"; "go.get_size(names)"]%string.
+Definition m_ec_shape : list String.string := ["self._genome_context.global_offset.get_offset([chromosome])[0]"]%string.
+Definition m_gd_shape : list String.string := ["go.get_offset(names)"; "zip(names, starts, stops) -> (name, start, stop)"]%string.
+(* global_offset.py: start_ends_from_intervals *)
+Definition m_go_start_bad (start size : Z) : bool := start >=? size.
+Definition m_go_start_negative (start : Z) : bool := start <? 0.
+Definition m_go_stop_ok (stop size : Z) : bool := stop <=? size.
+Definition m_go_shift (x offset : Z) : Z := x + offset.
+Definition m_go_shape : list String.string :=
+  ["self.get_offset(chromosome)"; "self.get_size(chromosome)"; "(start_offsets, stop_offsets)"]%string.
+
 (* ---------- GlobalOffset ---------- *)
 Definition offsets (sizes : list Z) : list Z := insert0 0 (cumsum sizes).
 Definition total_size (sizes : list Z) : Z := sumZ sizes.
-(* from_local_interval: None where the library raises (start >= size, stop > size) *)
+(* from_local_interval: None where the library raises (start >= size, start < 0, stop > size) *)
 Definition to_global (sizes : list Z) (recs : list grec) : option (list rec1) :=
-  if all_true (map (fun '(c, s, e, _) => (0 <=? c) && (c <? len sizes) && (s <? nthZ sizes c) && (e <=? nthZ sizes c)) recs)
-  then Some (map (fun '(c, s, e, v) => (s + nthZ (offsets sizes) c, e + nthZ (offsets sizes) c, v)) recs)
+  if all_true (map (fun '(c, s, e, _) => (0 <=? c) && (c <? len sizes)
+                      && negb (m_go_start_bad s (nthZ sizes c)) && negb (m_go_start_negative s)
+                      && m_go_stop_ok e (nthZ sizes c)) recs)
+  then Some (map (fun '(c, s, e, v) => (m_go_shift s (nthZ (offsets sizes) c), m_go_shift e (nthZ (offsets sizes) c), v)) recs)
   else None.
 
 (* ---------- GenomicRunLengthArray.to_array: scatter the xor-differences, xor-accumulate ----------
    The library xors the machine bit patterns (bool; int64; float64 viewed as uint64); the model
    xors the two components of the dyadic representation — the same algorithm on another injective
    encoding. *)
-Definition vxor (a b : val) : val := (Z.lxor (fst a) (fst b), Z.lxor (snd a) (snd b)).
+Definition vxor (a b : val) : val := (m_xor (fst a) (fst b), m_xor (snd a) (snd b)).
 Definition xdiffs (vs : list val) : list val := map2 vxor (removelast vs) (tl vs).
 (* array[idx] = vals on a zero array of the given length, idx strictly increasing: walk the positions *)
 Fixpoint scatter_from (p : Z) (n : nat) (idx : list Z) (vs : list val) : list val :=
@@ -269,7 +339,7 @@ Fixpoint fill_gaps (recs : list rec1) : list Z * list val :=
   | (s, e, v) :: rest =>
       let '(ss, vs) := fill_gaps rest in
       match rest with
-      | (s2, _, _) :: _ => if s2 =? e then (s :: ss, v :: vs) else (s :: e :: ss, v :: vzero :: vs)
+      | (s2, _, _) :: _ => if m_bg_is_gap s2 e then (s :: e :: ss, v :: vint m_bg_gap_value :: vs) else (s :: ss, v :: vs)
       | [] => (s :: ss, v :: vs)
       end
   end.
@@ -280,18 +350,19 @@ Definition append_kind_pinned (k : kind) : kind := match k with KB => KI | k => 
 Definition append_kind_fixed (k : kind) : kind := k.
 Definition from_bedgraph_gen (append_kind : kind -> kind) (k : kind) (recs : list rec1) (size : Z) : option (kind * rle) :=
   match recs with
-  | [] => match mk_rle [0; size] [vzero] with Some r => Some (KI, r) | None => None end
+  | [] => match mk_rle (m_bg_empty_events size) (map vint m_bg_empty_values) with Some r => Some (KI, r) | None => None end
   | _ =>
       let '(start, value) := fill_gaps recs in
       let stop := last_stop recs in
-      if size <? stop then None     (* assert bedgraph.stop[-1] <= size *)
+      if negb (m_bg_fits stop size) then None     (* assert bedgraph.stop[-1] <= size *)
       else
         let '(events, values, k1) :=
-          if size =? stop then (start ++ [stop], value, k)
-          else (start ++ [stop; size], value ++ [vzero], append_kind k) in
+          if m_bg_ends_at_size size stop then (start ++ m_bg_tail_at size stop, value, k)
+          else (start ++ m_bg_tail_before size stop, value ++ map vint m_bg_tail_values_before, append_kind k) in
         let '(events, values) :=
           match events with
-          | e0 :: _ => if e0 =? 0 then (events, values) else (0 :: events, vzero :: values)
+          | e0 :: _ => if m_bg_needs_prefix e0 then (m_bg_prefix_event :: events, vint m_bg_prefix_value :: values)
+                       else (events, values)
           | [] => (events, values)
           end in
         match mk_rle events values with Some r => Some (k1, r) | None => None end
@@ -312,10 +383,12 @@ Definition cast_to (k : kind) (v : val) : val :=
   | KI => (Z.quot (fst v) (2 ^ snd v), 0)
   | KF => v
   end.
+Definition iv_has_prefix (starts : list Z) : bool := match starts with s0 :: _ => negb (s0 =? 0) | [] => true end.
+Definition iv_has_postfix (ends : list Z) (size : Z) : bool := match ends with [] => true | _ => negb (last ends 0 =? size) end.
 Definition from_intervals_events (starts ends : list Z) (size : Z) : list Z * bool * bool :=
-  let has_prefix := match starts with s0 :: _ => negb (s0 =? 0) | [] => true end in
-  let has_postfix := match ends with [] => true | _ => negb (last ends 0 =? size) end in
-  ((if has_prefix then [0] else []) ++ interleave2 starts ends ++ (if has_postfix then [size] else []),
+  let has_prefix := iv_has_prefix starts in
+  let has_postfix := iv_has_postfix ends size in
+  ((if has_prefix then m_iv_prefix size else []) ++ interleave2 starts ends ++ (if has_postfix then m_iv_postfix size else []),
    has_prefix, has_postfix).
 (* RunLengthArray.__init__(events, values, do_clean=True) ignores do_clean (pinned): touching intervals
    leave an empty run and the constructor's assertion fails.  The repaired variant removes empty runs
@@ -339,9 +412,9 @@ Definition from_intervals_scalar_gen (clean : list Z -> list (Z * Z) -> list Z *
   if negb (all_true (map2 Z.ltb starts ends) && all_true (map2 Z.leb (removelast ends) (tl starts))) then None
   else
     let '(events, has_prefix, _) := from_intervals_events starts ends size in
-    let values := alternate (Z.to_nat (len events / 2 + 1)) (cast_to k default) value in
+    let values := alternate (Z.to_nat (m_iv_n_pairs (len events))) (cast_to k default) value in
     let values := if has_prefix then values else tl values in
-    let values := firstn (Z.to_nat (len events - 1)) values in
+    let values := firstn (Z.to_nat (m_iv_keep (len events))) values in
     let '(events, values) := clean events values in
     match mk_rle events values with Some r => Some (k, r) | None => None end.
 (* array of per-interval values.  Pinned code: interleave(np.broadcast(...), values) raises
@@ -357,7 +430,7 @@ Definition from_intervals_array_fixed (clean : list Z -> list (Z * Z) -> list Z 
     let vs := interleave2 (map (fun _ => cast_to k default) values) values in
     let vs := if has_postfix then vs ++ [cast_to k default] else vs in
     let vs := if has_prefix then vs else tl vs in
-    let vs := firstn (Z.to_nat (len events - 1)) vs in
+    let vs := firstn (Z.to_nat (m_iv_keep (len events))) vs in
     let '(events, vs) := clean events vs in
     match mk_rle events vs with Some r => Some (k, r) | None => None end.
 (* ---- the variant in force (one-line switches): the code at /repo HEAD.  Once notes/C09.fix-2.diff is in /repo use
@@ -444,7 +517,7 @@ Definition slice_rle (a b : Z) (r : rle) : rle := of_runs (slice_runs a b (runs_
 
 (* GenomicArrayGlobal.to_dict: {name: track[offset:offset+size].to_array()} *)
 Definition chrom_slices (sizes : list Z) (r : rle) : list rle :=
-  per_chrom (fun c n => slice_rle (nthZ (offsets sizes) c) (nthZ (offsets sizes) c + n) r) sizes.
+  per_chrom (fun c n => slice_rle (m_slice_lo (nthZ (offsets sizes) c) n) (m_slice_hi (nthZ (offsets sizes) c) n) r) sizes.
 Definition model_to_dict (sizes : list Z) (r : rle) : list (list val) := map to_array (chrom_slices sizes r).
 
 (* get_data / _get_intervals_from_data: Boolean -> the runs that are True; otherwise every run with its value *)
